@@ -18,7 +18,21 @@ CHECKS = {
 
 NOT_APPLICABLE = []
 
+# A check is claimed only after the lead verified it (green, deterministic, detects its negative controls):
+# its id is then listed in tools/claimed.txt and its entry comes from checks/<ID>.manifest.json.
+def load_claimed():
+    path = os.path.join(ROOT, "tools", "claimed.txt")
+    ids = [l.strip() for l in open(path) if l.strip() and not l.startswith("#")] if os.path.exists(path) else []
+    for pid in ids:
+        f = os.path.join(ROOT, "checks", f"{pid}.manifest.json")
+        if pid in CHECKS or not os.path.exists(f):
+            continue
+        e = json.load(open(f))
+        CHECKS[pid] = dict(engine=e["engine"], category=e["category"], design_ref=e.get("design_ref", "DESIGN.md section 4 / " + pid),
+                           technique=e["technique"], text=e["text"], note=e["note"])
+
 def main():
+    load_claimed()
     props = [json.loads(l)["id"] for l in open(os.path.join(ROOT, "properties.jsonl"))]
     hooks_commits = subprocess.run(["git", "-C", "/repo", "log", "--format=%h %s"], capture_output=True, text=True).stdout
     hook_shas = [l.split()[0] for l in hooks_commits.splitlines() if l.split(" ", 1)[1].startswith("verif hooks")]
